@@ -125,7 +125,10 @@ def hintsOf (st : St) (implObs : List String) : Hints :=
   let sdOrder := (implObs.filterMap fun o => match words o with
     | ["sdorder", l] => some ((l.splitOn ",").map (nameIdx st))
     | _ => none).flatten
-  { depOrder, sdOrder }
+  let runOrder := implObs.filterMap fun o => match words o with
+    | ["state", n, "Pending"] => some (nameIdx st n)
+    | _ => none
+  { depOrder, sdOrder, runOrder }
 
 def parseFlags (fl : String) (c : Cfg) : Cfg :=
   fl.toList.foldl (fun c ch => match ch with
